@@ -64,3 +64,36 @@ def dwvw_harnesses():
                          functions=["dwvw_write_*", "dwvw_encode_data", "dwvw_encode_store_bits", "dwvw_close", "dwvw_read_*", "dwvw_decode_data", "dwvw_decode_load_bits", "dwvw_read_reset"],
                          bounds="%d-bit DWVW, %d sample(s) (grid), every sample value symbolic, split point symbolic" % (bitw, ns)))
     return out
+
+
+def alac_stage_harnesses(sels=("SEL_WRITE", "SEL_READ", "SEL_SEEK")):
+    """ALAC staging layer (harness/L3/alac_stage.c): position P0 inside the 4096-frame packet on the grid, LM symbolic items."""
+    out = []
+    apis = (("s", "short"), ("i", "int"), ("f", "float"), ("d", "double"))
+    for sel in sels:
+        if sel == "SEL_SEEK":
+            cfgs = [(None, 2, 3, 8)]
+        else:
+            cfgs = [(a, ch, p0, ftb) for a in apis for ch in (1, 2) for p0, ftb in ((0, 8), (3, 8), (7, 8), (6, 8), (2, 3))
+                    if not (sel == "SEL_WRITE" and ftb != 8) and not (ch == 1 and p0 in (3, 6))]
+        for a, ch, p0, ftb in cfgs:
+            d = {sel: 1, "CH": ch, "P0": p0, "FTB": ftb, "FPB": 8, "LM": 4, "LIBSNDFILE_VERIF_ALAC_BYTE_BUFFER_SIZE": 256, "MF_CAP": 64, "MF_MAXIO": 64, "SNP_MAX": 40, "PSF_MEMSET_MAX": 64,
+                 "LIBSNDFILE_VERIF_BUFFER_LEN": 64, "SM_MAXIO": 64}
+            if a is not None:
+                d["API_" + a[0]] = 1; d["API_T"] = a[1]; d["API_ND"] = a[1]
+            else:
+                d["API_s"] = 1; d["API_T"] = "short"; d["API_ND"] = "short"
+            isfloat = a is not None and a[0] in ("f", "d")
+            d["SM_RELIABLE"] = 1
+            if isfloat and sel == "SEL_WRITE":
+                d["CONCRETE_VALUES"] = 1
+            name = "alac.stage.%s%s.ch%d.p%d%s" % (sel[4:].lower(), "" if a is None else "." + a[1], ch, p0, "" if ftb == 8 else ".ftb%d" % ftb)
+            out.append(H(name, "L3/alac_stage.c", link=["common", "chunk", "ALAC/ALACBitUtilities"], stubs=["psf_log_printf", "psf_memset"], defines=d, unwind=10,
+                         unwindset=["psf_fread.0:65", "psf_fwrite.0:65", "snprintf.0:41", "snprintf.1:41", "alac_pakt_block_offset.0:5", "fread.0:65"] + ["alac_%s_%s.%s" % (rw, t, lp) for rw in ("read", "write") for t in "sifd" for lp in ("0:6", "1:4")],
+                         checks="mem", fsa=80, solver="cadical" if isfloat else "default",
+                         include_env=("log_stub", "memfile", "memset_model", "snprintf_model", "stdio_model", "libm_model"), timeout=300,
+                         tiers=("quick", "thorough") if (ch == 2 and p0 in (3, 7, 2) and not (isfloat and sel == "SEL_WRITE" and p0 != 3)) else ("thorough",),
+                         functions=["alac_write_s/i/f/d", "alac_read_s/i/f/d", "alac_seek", "alac_encode_block", "alac_decode_block", "alac_pakt_append", "alac_pakt_block_offset"],
+                         bounds="%d channel(s), frames per packet 8 (scaled down from 4096: the staging arithmetic is uniform in it), %d frames of the current packet already staged/consumed%s, one call of <= 4 items (symbolic values; position-distinct constants for the float/double writers); ALAC bit-stream library = contract stub; packet buffer 256 bytes/channel (hook)" % (
+                             ch, p0, "" if ftb == 8 else " (packet holds %d frames)" % ftb)))
+    return out
